@@ -167,7 +167,7 @@ type c04Stream struct {
 
 func genC04Program(t *rapid.T) *c04Program {
 	p := &c04Program{
-		Topology: rapid.SampledFrom([]string{"lock", "combine", "file", "buffered", "tee", "shared-locked", "file-twice"}).Draw(t, "topology"),
+		Topology: rapid.SampledFrom([]string{"lock", "combine", "file", "buffered", "tee", "shared-locked", "file-twice", "tee-dropper"}).Draw(t, "topology"),
 		BufSize:  rapid.SampledFrom([]int{64, 128, 256, 1024, 4096}).Draw(t, "bufSize"),
 		Procs:    rapid.SampledFrom([]int{1, 2, 4, 16}).Draw(t, "gomaxprocs"),
 	}
@@ -244,6 +244,13 @@ func c04Run(t interface{ Fatalf(string, ...any) }, p *c04Program) (alternations 
 			streams = append(streams, &c04Stream{name: "zap.Open " + f, data: func() []byte { b, _ := os.ReadFile(f); return b }})
 		}
 		core = zapcore.NewCore(zapcore.NewJSONEncoder(jcfg), ws, zapcore.DebugLevel)
+	case "tee-dropper":
+		// a tee whose SECOND branch sits behind a sampler with an empty budget (it drops every entry): the first
+		// branch still receives the full set, the second nothing
+		full := zapcore.NewCore(zapcore.NewJSONEncoder(jcfg), zapcore.Lock(mkSink("tee full branch", false)), zapcore.DebugLevel)
+		dropped := zapcore.NewCore(zapcore.NewJSONEncoder(jcfg), zapcore.Lock(mkSink("tee branch behind a dropping sampler", false)), zapcore.DebugLevel)
+		streams[len(streams)-1].only = func(int) bool { return false }
+		core = zapcore.NewTee(full, zapcore.NewSamplerWithOptions(dropped, time.Hour, 0, 0))
 	case "file-twice":
 		// the SAME file reached by two routes, as when two loggers are built from one configuration or a path is
 		// listed under OutputPaths and ErrorOutputPaths: two zap.Open calls, two handles, two locks. Every line of
@@ -281,10 +288,15 @@ func c04Run(t interface{ Fatalf(string, ...any) }, p *c04Program) (alternations 
 		streams[len(streams)-1].only = func(g int) bool { return g%2 == 1 }
 	case "tee":
 		bws = &zapcore.BufferedWriteSyncer{WS: mkSink("tee console->Buffered", true), Size: p.BufSize, FlushInterval: time.Second, Clock: clk}
-		core = zapcore.NewTee(
+		// the branches are kept in a list the program goes on using (a core that enables nothing among them): a
+		// second tee built from the same list is the same tee
+		branches := []zapcore.Core{
+			zapcore.NewNopCore(),
 			zapcore.NewCore(zapcore.NewJSONEncoder(jcfg), zapcore.Lock(mkSink("tee json->Lock", false)), zapcore.DebugLevel),
 			zapcore.NewCore(zapcore.NewConsoleEncoder(jcfg), bws, zapcore.DebugLevel),
-		)
+		}
+		_ = zapcore.NewTee(branches...)
+		core = zapcore.NewTee(branches...)
 	}
 	lg := zap.New(core, zap.AddCaller())
 	// the shared context carries a reflected value: every derived encoder starts from one that has used its reflection buffer
@@ -591,7 +603,7 @@ func c04Replay(t *testing.T, file string) {
 
 func TestRegressC04(t *testing.T) {
 	// a fixed busy program on every topology
-	for _, topo := range []string{"lock", "combine", "file", "buffered", "tee", "file-twice"} {
+	for _, topo := range []string{"lock", "combine", "file", "buffered", "tee", "file-twice", "tee-dropper"} {
 		p := &c04Program{Topology: topo, BufSize: 128, Procs: 4}
 		for g := 0; g < 6; g++ {
 			var sc []c04Op
